@@ -1,0 +1,11 @@
+//go:build verif
+
+// Contracts for package ringbuffer (pool), checked by /verif/gvc (see /verif/DESIGN.md).
+
+package ringbuffer
+
+// index selects the statistics bucket of a buffer length: always inside calls[0..steps).
+//@ func index(n int) int
+//@   mode bv
+//@   ensures 0 <= res && res < 20
+//@   ensures 1 <= n && res < 19 ==> n <= 64 * pow2(res)
